@@ -180,10 +180,10 @@ def _yaml(history):
         y += "    %s:\n      space: %s\n      time: %s\n" % (n, sp, tm)
     y += ("format:\n  Z:\n    default:\n      rank-order: [M, N]\n      M:\n        format: C\n      N:\n"
           "        format: C\n        pbits: 32\n")
-    y += ("architecture:\n  configA:\n  - name: System\n    local:\n    - name: FPMul0\n      class: compute\n"
+    y += ("architecture:\n  configA:\n  - name: System\n    attributes:\n      clock_frequency: 1000\n    local:\n    - name: FPMul0\n      class: compute\n"
           "      attributes:\n        type: mul\n    - name: FPMul1\n      class: compute\n      attributes:\n"
           "        type: mul\n    - name: Seq0\n      class: Sequencer\n      attributes:\n        num_ranks: 3\n"
-          "  configB:\n  - name: System\n    local:\n    - name: FPMul0\n      class: compute\n"
+          "  configB:\n  - name: System\n    attributes:\n      clock_frequency: 1000\n    local:\n    - name: FPMul0\n      class: compute\n"
           "      attributes:\n        type: mul\n    - name: FPMul1\n      class: compute\n      attributes:\n"
           "        type: mul\n")
     y += "bindings:\n"
